@@ -124,7 +124,7 @@ CLAIMS['C09'] = dict(
           "(pigeonhole on the duplicate-free stack of defined declarations: |definitions|+1 levels suffice). "
           "Partial: specMax is an executable specification with the same cycle rule (a declaration met again on the "
           "current path is unbounded), not a semantic supremum over all values; which of several simultaneous errors "
-          "is reported is compared per case only. Soundness against values, every container (C09_sound_container / C09_sound_stream, via sdec_bound): whenever a maximum is reported, no byte string that a schema-only reader walks exactly is longer, so specMax is an upper bound on what the schema describes and not only a formula; C09_sound_types: with Bnd (derived from for_type for built-in compositions by C08_builtin_bound) no value of the Rust type serializes to more bytes than the reported maximum."),
+          "is reported is compared per case only. Soundness against values, every container (C09_sound_container / C09_sound_stream, via sdec_bound): whenever a maximum is reported, no byte string that a schema-only reader walks exactly is longer, so specMax is an upper bound on what the schema describes and not only a formula; C09_sound_types: with Bnd (derived from for_type for built-in compositions by C08_builtin_bound) no value of the Rust type serializes to more bytes than the reported maximum. Tightness (C09_tight / C09_is_maximum, via specMax_attained): on every readable container (non-empty enums with distinct in-range discriminants, ranges that fit their width - checked for the container of every Rust type on every run) the reported maximum is attained by a described byte string, so it is the true maximum."),
     technique="Lean 4 proof (exactness by induction on the fuelled evaluation) + differential check incl. specification verdict per case",
     design_ref="§5 C09")
 CLAIMS['C10'] = dict(
